@@ -548,6 +548,12 @@ def main():
                 known_hits.append(kf["obligation"])
                 out_lines.append("KNOWN-FINDING: property=%s %s [obligation %s]" % (pid, kf["what"], kf["obligation"]))
             continue
+        if any(l.startswith("VIOLATION ") and ("obligation=%s " % f["obligation"]) in l for l in out_lines):
+            # the same named obligation fails at a second place: one VIOLATION line, both verifier outputs in the replay file
+            safe = re.sub(r"[^A-Za-z0-9_.-]+", "_", f["obligation"])[:150]
+            with open(os.path.join(VERIF, "replay", "%s-%s.txt" % (pid, safe)), "a") as fh:
+                fh.write("\n--- also fails at %s ---\n%s\n" % (f["where"], f["rendered"]))
+            continue
         viol += 1
         safe = re.sub(r"[^A-Za-z0-9_.-]+", "_", f["obligation"])[:150]
         rp = os.path.join(VERIF, "replay", "%s-%s.txt" % (pid, safe))
